@@ -837,8 +837,13 @@ def _main(ctx, pool, scratch, quick, t0):
         name = "MCG08Astro"
         # quick: the theorems in one invariant (headers and result computed once per state); thorough: also one by one
         r = ctx.tlc(name, extra={name + ".tla": tla.module(name, ["MCFeedAstrometry"], [])},
-                    cfg_text=fa_cfg(P, (FA_INV if not quick else []) + ["TheoremsAndEmit"]), workers=4 if quick else 6, timeout=6000)
+                    cfg_text=fa_cfg(P, ["TheoremsAndEmit"]), workers=4 if quick else 6, timeout=6000)
         return r, r.json_lines("A")
+
+    def tlc_fa_named():
+        # the same theorems one by one (a violated one is named), over the quick case sets
+        name = "MCG08AstroNamed"
+        return ctx.tlc(name, extra={name + ".tla": tla.module(name, ["MCFeedAstrometry"], [])}, cfg_text=fa_cfg("Q", FA_INV), workers=3, timeout=6000)
 
     def tlc_scan():
         name = "MCG08Scan"
@@ -857,6 +862,7 @@ def _main(ctx, pool, scratch, quick, t0):
         f_fa = tex.submit(tlc_fa)
         f_scan = tex.submit(tlc_scan)
         f_rec = tex.submit(tlc_fs, "astropix", "recorded", False) if not quick else None
+        f_named = tex.submit(tlc_fa_named) if not quick else None
 
         futs = []
         # ---- the page scanner
@@ -945,6 +951,8 @@ def _main(ctx, pool, scratch, quick, t0):
             findings += fs
         t_replay = time.time() - t0
         r_rec = f_rec.result()[0] if f_rec is not None else None
+        if f_named is not None:
+            f_named.result()
 
     ctx.count(len(rows) + 2 * n["proto"] + stats_total.get("headers", 0) + 3 * stats_total.get("pipeline", 0))
     ctx.trace_ok(len(rows) + n["proto"] + stats_total.get("headers", 0))
